@@ -624,8 +624,47 @@ pub fn gen_geom(rng: &mut Rng, span: i64, depth: usize) -> G {
     }
 }
 
+/// "Clustered" swarm: one large prepared geometry and many small partners that all sit in one
+/// small region on its boundary, used 20-45 times (an index that adapts to the observed queries,
+/// an LRU of partners, a counter ... needs exactly this kind of history).
+fn gen_clustered(rng: &mut Rng) -> History {
+    let s = *rng.pick(&[40i64, 100, 200]);
+    let big = match rng.below(3) {
+        0 => G::Polygon(vec![(0, 0), (s, 0), (s, s), (0, s), (0, 0)], vec![]),
+        1 => G::Polygon(vec![(0, 0), (s, 0), (s, s), (0, s), (0, 0)], vec![vec![(s / 4, s / 4), (s / 4, 3 * s / 4), (3 * s / 4, 3 * s / 4), (3 * s / 4, s / 4), (s / 4, s / 4)]]),
+        _ => G::LineString(vec![(0, 0), (s, 0), (s, s), (0, s), (0, 2), (s - 2, 2)]),
+    };
+    // cluster centre on the bottom edge or at a corner
+    let cx = *rng.pick(&[0, s / 5, s / 2, s - 3]);
+    let cy = *rng.pick(&[0i64, 0, 0, 2]);
+    let ng = 4 + rng.below(4);
+    let mut geoms = vec![big];
+    for _ in 0..ng {
+        geoms.push(offset_geom(&gen_geom(rng, 4, 0), (cx - 2, cy - 2)));
+    }
+    let mut steps = vec![Step::Prepare { geom: 0, owned: rng.chance(1, 2) }];
+    let n = 20 + rng.below(26);
+    for k in 0..n {
+        let g = 1 + rng.below(ng);
+        let st = match rng.below(12) {
+            0 => Step::CloneHandle { slot: rng.below(2) },
+            1 if k > 10 => Step::DropHandle { slot: 0 },
+            2..=6 => Step::Relate { a: Operand::Prep(rng.below(2)), b: Operand::Plain(g) },
+            _ => Step::Relate { a: Operand::Plain(g), b: Operand::Prep(rng.below(2)) },
+        };
+        steps.push(st);
+        if !steps.iter().any(|s| matches!(s, Step::Prepare { .. })) || matches!(steps.last(), Some(Step::DropHandle { .. })) {
+            steps.push(Step::Prepare { geom: 0, owned: true });
+        }
+    }
+    History { geoms, steps, reask: true }
+}
+
 pub fn gen_history(seed: u64) -> History {
     let mut rng = Rng::stream(seed, "c17-workload");
+    if rng.chance(1, 14) {
+        return gen_clustered(&mut rng);
+    }
     // swarm: most histories are small, dense in coincidences and short; some have many-vertex
     // geometries (multi-level R-tree, long edges), some are long (one handle reused dozens of
     // times), some sit far from the origin
